@@ -36,7 +36,7 @@ type Ctl struct {
 	sigs   map[string][]int // entry content -> indices not yet seen by a reader
 	// per-table counters
 	Reads, Verdicts, Offers, Applies, FlushDone, OffWritten map[string]int
-	OpenOff, Ready                                          map[string]int
+	OpenOff, Ready, FieldsSet, FieldsDone                   map[string]int
 	Events                                          int
 	// abstract schema of the tables (for Open lines)
 	Abs map[string]TableAbs
@@ -78,6 +78,7 @@ func (c *Ctl) ResetScenario() {
 func (c *Ctl) ResetIncarnation() {
 	c.Reads, c.Verdicts, c.Applies = map[string]int{}, map[string]int{}, map[string]int{}
 	c.Offers, c.OpenOff, c.Ready = map[string]int{}, map[string]int{}, map[string]int{}
+	c.FieldsSet, c.FieldsDone = map[string]int{}, map[string]int{}
 	c.FlushDone, c.OffWritten = map[string]int{}, map[string]int{}
 	c.parks = map[string]*Park{}
 }
@@ -207,7 +208,10 @@ func (c *Ctl) Hook(ev string, kv ...interface{}) {
 		c.emit(map[string]interface{}{"a": "Open", "t": table, "off": c.offsets0(kv[2]), "w": abs.W, "fs": abs.Fs, "file": kv[1]})
 	case "rs.ready":
 		c.Ready[table]++
+	case "rs.fields.done":
+		c.FieldsDone[table]++
 	case "rs.fields":
+		c.FieldsSet[table]++
 		c.emit(map[string]interface{}{"a": "RSFields", "t": table})
 	case "iter.start":
 		c.emit(map[string]interface{}{"a": "QueryStart", "t": table, "file": kv[1], "mem": kv[2]})
